@@ -8,6 +8,7 @@ use crate::{
 };
 
 use image::RgbaImage;
+use std::collections::BTreeMap;
 use std::fmt;
 use std::io::Read;
 use std::sync::Arc;
@@ -81,10 +82,14 @@ impl<'a> Cel<'a> {
     }
 }
 
-/// Organizes all Cels into a 2d array.
+/// Organizes all Cels into a 2d table.
 pub(crate) struct CelsData<P> {
-    // Mapping: frame_id -> layer_id -> Option<RawCel>
-    data: Vec<Vec<Option<RawCel<P>>>>,
+    // Mapping: frame_id -> layer_id -> RawCel
+    //
+    // Each frame only stores the cels that exist (sorted by layer id), so the
+    // memory used is proportional to the number of cels in the file and not to
+    // `num_frames * (highest layer index)`.
+    data: Vec<BTreeMap<u16, RawCel<P>>>,
     num_frames: u32,
 }
 #[derive(Debug, Clone, Copy)]
@@ -106,16 +111,14 @@ where
     fn fmt(&self, f: &mut fmt::Formatter<'_>) -> fmt::Result {
         let mut d = f.debug_map();
         for frame in 0..self.data.len() {
-            for (layer, cel) in self.data[frame].iter().enumerate() {
-                if let Some(ref cel) = cel {
-                    d.entry(
-                        &CelId {
-                            frame: frame as u16,
-                            layer: layer as u16,
-                        },
-                        cel,
-                    );
-                }
+            for (layer, cel) in self.data[frame].iter() {
+                d.entry(
+                    &CelId {
+                        frame: frame as u16,
+                        layer: *layer,
+                    },
+                    cel,
+                );
             }
         }
         d.finish()
@@ -125,8 +128,8 @@ where
 impl<P> CelsData<P> {
     pub(crate) fn new(num_frames: u32) -> Self {
         let mut data = Vec::with_capacity(num_frames as usize);
-        // Initialize with one layer (outer Vec) and zero RawCel (inner Vec).
-        data.resize_with(num_frames as usize, || vec![None]);
+        // Initialize every frame with an empty set of cels.
+        data.resize_with(num_frames as usize, BTreeMap::new);
         CelsData { data, num_frames }
     }
 
@@ -144,18 +147,14 @@ impl<P> CelsData<P> {
         self.check_valid_frame_id(frame_id)?;
 
         let layer_id = cel.data.layer_index;
-        let min_layers = layer_id as u32 + 1;
         let layers = &mut self.data[frame_id as usize];
-        if layers.len() < min_layers as usize {
-            layers.resize_with(min_layers as usize, || None);
-        }
-        if layers[layer_id as usize].is_some() {
+        if layers.contains_key(&layer_id) {
             return Err(AsepriteParseError::InvalidInput(format!(
                 "Multiple Cels for frame {}, layer {}",
                 frame_id, layer_id
             )));
         }
-        layers[layer_id as usize] = Some(cel);
+        layers.insert(layer_id, cel);
 
         Ok(())
     }
@@ -163,31 +162,18 @@ impl<P> CelsData<P> {
     pub(crate) fn frame_cels(&self, frame_id: u16) -> impl Iterator<Item = (u32, &RawCel<P>)> {
         self.data[frame_id as usize]
             .iter()
-            .enumerate()
-            .filter_map(|(layer_id, cel)| cel.as_ref().map(|c| (layer_id as u32, c)))
+            .map(|(layer_id, cel)| (*layer_id as u32, cel))
     }
 
     // Frame ID must be valid. If Layer ID is out of bounds always returns an
     // empty Vec.
     pub(crate) fn cel(&self, cel_id: CelId) -> Option<&RawCel<P>> {
         let CelId { frame, layer } = cel_id;
-        let layers = &self.data[frame as usize];
-        if (layer as usize) >= layers.len() {
-            None
-        } else {
-            layers[layer as usize].as_ref()
-        }
+        self.data[frame as usize].get(&layer)
     }
 
     pub(crate) fn cel_mut(&mut self, cel_id: &CelId) -> Option<&mut RawCel<P>> {
-        let frame = cel_id.frame;
-        let layer = cel_id.layer;
-        let layers = &mut self.data[frame as usize];
-        if (layer as usize) >= layers.len() {
-            None
-        } else {
-            layers[layer as usize].as_mut()
-        }
+        self.data[cel_id.frame as usize].get_mut(&cel_id.layer)
     }
 }
 
@@ -279,30 +265,26 @@ impl CelsData<RawPixels> {
 
         // Validate and transform each cel. Consumes input arrays.
         for (frame, cels_by_layer) in self.data.into_iter().enumerate() {
-            result.data.push(Vec::with_capacity(cels_by_layer.len()));
-            for (layer, opt_cel) in cels_by_layer.into_iter().enumerate() {
-                let cel = if let Some(cel) = opt_cel {
-                    let cel_id = CelId {
-                        frame: frame as u16,
-                        layer: layer as u16,
-                    };
-                    if layer >= num_layers {
-                        return Err(AsepriteParseError::InvalidInput(format!(
-                            "Cel {} references a layer that does not exist",
-                            cel_id
-                        )));
-                    }
-                    Some(cel.validate(
-                        cel_id,
-                        layers,
-                        pixel_format,
-                        palette.clone(),
-                        &validate_ref,
-                    )?)
-                } else {
-                    None
+            result.data.push(BTreeMap::new());
+            for (layer, cel) in cels_by_layer.into_iter() {
+                let cel_id = CelId {
+                    frame: frame as u16,
+                    layer,
                 };
-                result.data[frame].push(cel);
+                if layer as usize >= num_layers {
+                    return Err(AsepriteParseError::InvalidInput(format!(
+                        "Cel {} references a layer that does not exist",
+                        cel_id
+                    )));
+                }
+                let cel = cel.validate(
+                    cel_id,
+                    layers,
+                    pixel_format,
+                    palette.clone(),
+                    &validate_ref,
+                )?;
+                result.data[frame].insert(layer, cel);
             }
         }
 
